@@ -36,6 +36,9 @@ inductive Val
   | jump
   /-- the `k`-th (1-based) of `n` logarithmic interpolates between `a` and `b` -/
   | logv (a b : Rat) (n k : Nat)
+  /-- the `k`-th (1-based) of `n` linear interpolates between `a` and `b`: `a + (b-a)·k/(n+1)`; kept symbolic because
+      "the same number" for an interpolate is judged on the scale of its interpolation (an interpolate may be 0) -/
+  | linv (a b : Rat) (n k : Nat)
   deriving Repr, DecidableEq
 
 def relTol : Rat := mkRat Gen.relTolNum Gen.relTolDen
@@ -48,10 +51,18 @@ def isClose (a b : Rat) : Bool :=
   let d := abs (a - b)
   decide (d ≤ abs (relTol * a)) || decide (d ≤ abs (relTol * b)) || decide (d ≤ absTol)
 
+/-- the value of the `k`-th of `n` linear interpolates between `a` and `b` -/
+def linValue (a b : Rat) (n k : Nat) : Rat := a + (b - a) * (k : Rat) / ((n + 1 : Nat) : Rat)
+
 /-- does the reported value `got` (`none` = jump / default) agree with what MCNP reads at this position? -/
 def Val.matches : Val → Option Rat → Bool
   | .num x, some y => isClose x y
   | .jump, none => true
+  | .linv a b n k, some y =>
+    -- within the library tolerance of the value, or within that tolerance of the interpolation's scale
+    -- (a double computation of `a + (b-a)k/(n+1)` cannot do better near 0)
+    let x := linValue a b n k
+    isClose x y || decide (abs (x - y) ≤ relTol * (if abs a < abs b then abs b else abs a))
   | .logv a b n k, some y =>
     let t := a ^ (n + 1 - k) * b ^ k
     let p := y ^ (n + 1)
@@ -71,7 +82,7 @@ def St.init : St := ⟨[], none, none⟩
 /-- the `n` interpolates strictly between `a` and `b` -/
 def between (a b : Rat) (n : Nat) (isLog : Bool) : List Val :=
   (List.range n).map fun i =>
-    if isLog then Val.logv a b n (i + 1) else Val.num (a + (b - a) * ((i + 1 : Nat) : Rat) / ((n + 1 : Nat) : Rat))
+    if isLog then Val.logv a b n (i + 1) else Val.linv a b n (i + 1)
 
 def step (s : St) : Entry → Option St
   | .num x =>
